@@ -192,3 +192,28 @@ Proof.
   - destruct (Z.eqb x z); [discriminate|].
     destruct (index_of x t); [discriminate|]. intros _. rewrite IH; reflexivity.
 Qed.
+
+(* ------------------------------------------------------------------ the dict _indx as an association list *)
+Lemma combine_app {A B} (l1 l2 : list A) (m1 m2 : list B) :
+  length l1 = length m1 -> combine (l1 ++ l2) (m1 ++ m2) = combine l1 m1 ++ combine l2 m2.
+Proof.
+  revert m1; induction l1 as [|a t IH]; intros [|b u] H; simpl in *; try discriminate; auto.
+  f_equal. apply IH. lia.
+Qed.
+
+Lemma lookup_combine x l k :
+  lookup x (combine l (seq k (length l))) = option_map (fun i => k + i) (index_of x l).
+Proof.
+  revert k; induction l as [|y t IH]; intros k; simpl; [reflexivity|].
+  destruct (Z.eqb x y); simpl; [f_equal; lia|].
+  rewrite IH. destruct (index_of x t); simpl; [f_equal; lia|reflexivity].
+Qed.
+
+Lemma lookup_index x l : lookup x (combine l (seq 0 (length l))) = index_of x l.
+Proof. rewrite lookup_combine. destruct (index_of x l); reflexivity. Qed.
+
+Lemma existsb_index x l : existsb (Z.eqb x) l = match index_of x l with Some _ => true | None => false end.
+Proof.
+  induction l as [|y t IH]; simpl; [reflexivity|].
+  destruct (Z.eqb x y); simpl; [reflexivity|]. rewrite IH. destruct (index_of x t); reflexivity.
+Qed.
